@@ -175,7 +175,7 @@ let run_sqlhist u line =
          | ["get"; i; d] -> Some (SGet (nat_of_int (int_of_string i), dir d))
          | ["len"] -> Some SLen
          | ["setmax"; n] -> Some (SSetMax (nat_of_int (int_of_string n)))
-         | ["reopen"] -> Some SReopen
+         | ["reopen"] | ["load"] -> Some SReopen          (* History::load of the same path: the object starts over on the same tables *)
          | ["reopen2"; igs; igd] -> Some (SReopenCfg (parse_bool igs, parse_bool igd))
          | ["setdups"; b] -> Some (SSetDups (parse_bool b))
          | ["setspace"; b] -> Some (SSetSpace (parse_bool b))
@@ -205,7 +205,7 @@ let parse_fop (tick : bool) (t : string list) : fop =
   let nat s = nat_of_int (int_of_string s) in
   match t with
   | ["new"; i; max; igs; igd] -> FNew (nat i, nat max, parse_bool igs, parse_bool igd)
-  | ["add"; i; s] -> FAdd (nat i, parse_str s)
+  | ["add"; i; s] | ["addo"; i; s] -> FAdd (nat i, parse_str s)
   | ["save"; i] -> FSave (nat i, tick)
   | ["append"; i] -> FAppend (nat i, tick)
   | ["load"; i] -> FLoad (nat i)
